@@ -51,8 +51,13 @@ func genHalt(c *Ctx) error {
 			return cs.Do(op)
 		}
 		lastCommit := map[int]string{}
+		beforeCommit := map[int]func(){} // runs once, right before node k's next commit operation
 		mkPager := func(k int) *pager {
 			p := newPager(r, ps, func(op string) string {
+				if hook := beforeCommit[k]; hook != nil && (op == "jrm" || op == "jtr" || strings.HasSuffix(op, " WRITE") && strings.HasPrefix(op, "unlock ")) {
+					delete(beforeCommit, k)
+					hook()
+				}
 				out := do(fmt.Sprintf("n %d %s", k, op))
 				if op == "jrm" || op == "jtr" || strings.HasSuffix(op, " WRITE") && strings.HasPrefix(op, "unlock ") {
 					lastCommit[k] = out
@@ -138,7 +143,28 @@ func genHalt(c *Ctx) error {
 			R.owner = 2
 			switch k := r.Intn(10); {
 			case k < 5: // a halted transaction (or several) from the replica
-				out := do(fmt.Sprintf("halt %d %d", rep, id))
+				var out string
+				if r.Chance(1, 3) {
+					// the request arrives while the primary's application is inside a write
+					// transaction: it queues behind the application's locks, the application commits,
+					// and the lock is granted at the position *after* that commit
+					issued := false
+					beforeCommit[primary] = func() { issued = true; do(fmt.Sprintf("halt-bg %d %d", rep, id)) }
+					pagerStep(c, P, 4)
+					delete(beforeCommit, primary)
+					if !issued {
+						do(fmt.Sprintf("halt-bg %d %d", rep, id))
+					}
+					st := do(fmt.Sprintf("n %d state", primary))
+					record(P, posOf(st))
+					out = do(fmt.Sprintf("halt-join %d", rep))
+					R.img, R.tok = append([][]byte{}, P.img...), append([]string{}, P.tok...)
+					R.wal, R.changeCtr = P.wal, P.changeCtr+uint32(1000*(i+1))
+					sig.WriteString(",queued")
+					c.Count("halt.queued")
+				} else {
+					out = do(fmt.Sprintf("halt %d %d", rep, id))
+				}
 				pp := states(what + " (halted)")
 				if !strings.HasPrefix(out, "ok ") {
 					c.Fail(fmt.Sprintf("history %d %s: halt lock not granted: %s", h, what, out))
